@@ -15,7 +15,9 @@ mod c06;
 mod c07;
 mod c08;
 mod c09;
+mod c10;
 mod c17;
+mod c18;
 
 struct PropDef {
     id: &'static str,
@@ -65,10 +67,20 @@ const PROPS: &[PropDef] = &[PropDef {
     run: c09::run,
     replay: c09::replay,
 }, PropDef {
+    id: "C10",
+    level: "exploration",
+    run: c10::run,
+    replay: c10::replay,
+}, PropDef {
     id: "C17",
     level: "exploration",
     run: c17::run,
     replay: c17::replay,
+}, PropDef {
+    id: "C18",
+    level: "exploration",
+    run: c18::run,
+    replay: c18::replay,
 }];
 
 fn main() {
